@@ -903,8 +903,17 @@ std::vector<Item> simulate_line(ModelState &m, const bytes &line, LineInfo *info
                 rt_flow(c, ci, K_TEST);
                 return done();
         case CT_WRITE: {
-                if ((int)args.size() > c.cap - 1)
-                        return err("C06", "arguments-do-not-fit");
+                if ((int)args.size() > c.cap - 1) {
+                        // C06: not processed in truncated form; a line that is processed nevertheless also stores values the
+                        // decoding properties forbid
+                        bool num = false, buf = false;
+                        if (writable)
+                                for (auto &v : cs.vars) {
+                                        num |= v.type <= T_HEX;
+                                        buf |= v.type > T_HEX;
+                                }
+                        return err(num && buf ? "C06,C04,C05" : num ? "C06,C04" : buf ? "C06,C05" : "C06", "arguments-do-not-fit");
+                }
                 if (cs.only_test)
                         return err("C09", "only-test-write");
                 int count = 0;
